@@ -70,63 +70,71 @@ def _resets(ctx, fi, stmt_or_call, target_src):
 
 
 def r1_fresh_error_state(ctx, it):
-    # the decision: raise guarded by <X>.getNumberErrorsFound() > 0  /  len(<X>.errors) > 0
-    deciders = []
-    for n in walk_local(it.node):
-        if isinstance(n, ast.If) and any(isinstance(s, ast.Raise) for s in n.body):
-            for c in ast.walk(n.test):
-                if isinstance(c, ast.Call) and isinstance(c.func, ast.Attribute) and c.func.attr == 'getNumberErrorsFound':
-                    deciders.append((n, c.func.value))
-                elif isinstance(c, ast.Attribute) and c.attr == 'errors':
-                    deciders.append((n, c.value))
-    ctx.expect_count('R1', 'error-count decision in import_token', len(deciders), 1)
-    parse_line = None
-    for n in walk_local(it.node):
-        if isinstance(n, ast.Call) and isinstance(n.func, ast.Attribute) and n.func.attr == 'start':
-            parse_line = n.lineno
-    if parse_line is None:
+    """The error collector is the object registered on lexer and parser.  If it outlives the call (an attribute of self) it must
+    be emptied on every path BEFORE the parse: a reset after the walk is skipped whenever parsing or walking raises."""
+    regs = [n for n in walk_local(it.node) if isinstance(n, ast.Call) and isinstance(n.func, ast.Attribute)
+            and n.func.attr == 'addErrorListener' and n.args]
+    objs = sorted({src(r.args[0]) for r in regs})
+    ctx.check(len(regs) >= 2 and len(objs) == 1, 'R1', it.loc, it.qualname, 'decider-is-registered-listener',
+              'one collecting listener is registered on both lexer and parser',
+              f'registered listeners: {[src(r.args[0]) for r in regs]}')
+    if len(objs) != 1:
+        return
+    osrc = objs[0]
+    obj = regs[0].args[0]
+    parse_calls = [n for n in walk_local(it.node) if isinstance(n, ast.Call) and isinstance(n.func, ast.Attribute) and n.func.attr == 'start']
+    if not parse_calls:
         raise AnalysisError(f'{it.loc}: the call of the start rule was not found')
-    for ifnode, obj in deciders:
-        at = f'{it.module.relpath}:{ifnode.lineno}'
-        osrc = src(obj)
-        if isinstance(obj, ast.Name):
-            # a local: must be created in this call
-            created = any(isinstance(n, ast.Assign) and any(F.is_name(t, obj.id) for t in n.targets)
-                          and isinstance(n.value, ast.Call) and F.constructed_class(ctx, n.value, it) is not None
-                          for n in walk_local(it.node))
-            ctx.check(created, 'R1', at, it.qualname, 'accumulated-error-state',
-                      f'the error collector `{osrc}` is created inside the call',
-                      f'the error collector `{osrc}` is not created inside import_token')
-            continue
-        # an attribute of self: every path from entry to the parse must reset it
+    at = f'{it.module.relpath}:{parse_calls[0].lineno}'
+    if isinstance(obj, ast.Name):
+        created = any(isinstance(n, ast.Assign) and any(F.is_name(t, obj.id) for t in n.targets)
+                      and isinstance(n.value, ast.Call) and F.constructed_class(ctx, n.value, it) is not None
+                      for n in walk_local(it.node))
+        ctx.check(created, 'R1', at, it.qualname, 'accumulated-error-state',
+                  f'the error collector `{osrc}` is created inside the call',
+                  f'the error collector `{osrc}` is not created inside import_token')
+    else:
         paths = enumerate_paths(docstring_free(it.body))
         ok_all, n_paths = True, 0
         for p in paths:
-            reached = False
-            reset = False
-            for s in p.steps:
-                ln = getattr(s.node, 'lineno', 0)
-                if s.kind == 'stmt' and _resets(ctx, it, s.node, osrc):
+            reached = reset = False
+            for s_ in p.steps:
+                if s_.kind == 'stmt' and _resets(ctx, it, s_.node, osrc):
                     reset = True
-                if any(isinstance(c.func, ast.Attribute) and c.func.attr == 'start' for e in step_exprs(s) for c in calls_in(e)):
+                if any(isinstance(c.func, ast.Attribute) and c.func.attr == 'start' for e in step_exprs(s_) for c in calls_in(e)):
                     reached = True
                     break
             if reached:
                 n_paths += 1
                 ok_all = ok_all and reset
-        where = 'constructor'
         ctx.check(ok_all and n_paths > 0, 'R1', at, it.qualname, 'accumulated-error-state',
                   f'the error state `{osrc}` is reset on every path before the parse ({n_paths} paths)',
-                  f'`{osrc}` is created once per importer (stored on self by the constructor) and only appended to: after the '
-                  f'first malformed cell its error count stays > 0, so EVERY later cell handled by this importer raises - the '
-                  f'outcome for a cell depends on the cells parsed before it')
-        # the same object must be the one registered on lexer and parser
-        regs = [n for n in walk_local(it.node) if isinstance(n, ast.Call) and isinstance(n.func, ast.Attribute)
-                and n.func.attr == 'addErrorListener']
-        okr = len(regs) >= 2 and all(src(r.args[0]) == osrc for r in regs if r.args)
-        ctx.check(okr, 'R1', at, it.qualname, 'decider-is-registered-listener',
-                  'the object that decides is the listener registered on both lexer and parser',
-                  f'registered listeners: {[src(r.args[0]) for r in regs if r.args]}; decision reads `{osrc}`')
+                  f'`{osrc}` outlives the call (it is stored on self and the Importer caches one importer per spine type) and is not '
+                  f'emptied on every path BEFORE the parse: errors left behind by an earlier malformed cell - for instance when the '
+                  f'parse or the tree walk of that cell raised before any later clean-up - make a later valid cell fail, so the outcome '
+                  f'for a cell depends on the cells parsed before it')
+    # the collected errors decide the outcome: a raise after the parse whose test derives from the collector
+    env = {}
+    for n in walk_local(it.node):
+        if isinstance(n, ast.Assign) and len(n.targets) == 1:
+            t, v = n.targets[0], n.value
+            if isinstance(t, ast.Name):
+                env.setdefault(t.id, []).append(src(v))
+            elif isinstance(t, ast.Tuple) and isinstance(v, ast.Tuple) and len(t.elts) == len(v.elts):
+                for a, b in zip(t.elts, v.elts):
+                    if isinstance(a, ast.Name):
+                        env.setdefault(a.id, []).append(src(b))
+    decisive = False
+    for n in walk_local(it.node):
+        if isinstance(n, ast.If) and n.lineno > parse_calls[0].lineno and any(isinstance(x, ast.Raise) for x in n.body):
+            txt = src(n.test)
+            names = {x.id for x in ast.walk(n.test) if isinstance(x, ast.Name)}
+            origin = txt + ' ' + ' '.join(o for nm in names for o in env.get(nm, []))
+            if osrc in origin:
+                decisive = True
+    ctx.check(decisive, 'R1', it.loc, it.qualname, 'errors-not-decisive',
+              'after the parse, a non-empty error collection makes import_token raise',
+              'no raise after the parse depends on the collected errors: a malformed cell is accepted')
 
 
 def r2_fresh_listener(ctx, it):
